@@ -79,7 +79,7 @@ func checkRanking(fs []obsFile) (string, string) {
 	if len(fs) >= 4 {
 		rest := append(append([]obsFile(nil), fs[:2]...), fs[3:]...)
 		p := fs[2]
-		if sorted(rest) && p.Ext != fs[0].Ext && p.Ext != fs[1].Ext && p.Score*10 >= fs[3].Score*9 {
+		if sorted(rest) && p.Ext != fs[0].Ext && p.Ext != fs[1].Ext && p.Score*10 >= fs[3].Score*9 && p.Score <= fs[3].Score {
 			return "", ""
 		}
 	}
@@ -188,6 +188,9 @@ type e2eDetail struct {
 	Query   string  `json:"query"`
 	Opts    string  `json:"opts"`
 	Repeats int     `json:"repeats"`
+	// Aggregated: a display-limited search over several shards, run for both shard arrival orders (aggregatedE2E)
+	Aggregated bool   `json:"aggregated"`
+	Family     string `json:"family"`
 }
 
 func runE2E(r *gen.Rand, repos []crepo, queries []srcQ, repeats int) {
@@ -308,10 +311,18 @@ func genE2E(r *gen.Rand, nQueries, repeats int) {
 	// boosted clauses (only reachable through the API)
 	queries = append(queries, parseQ("@boost1"), parseQ("@boost2"))
 	runE2E(r, repos, queries, repeats)
+	if os.Getenv("C29_CHILD") == "" && aggRandomBudget > 0 {
+		aggRandomBudget--
+		aggregatedE2E(repos, queries[:min(4, len(queries))], "random")
+	}
 }
 
 // digest: (query, options, file, score bits) of every end-to-end search of this process, compared with a second
 // process running the same searches (different map seeds, scheduler, addresses)
 var digest []string
+
+// aggRandomBudget: how many of the random end-to-end directories are also searched with display limits in both
+// shard arrival orders
+var aggRandomBudget int
 
 var _ = sort.Strings
